@@ -31,7 +31,8 @@ def nightly_sysroot():
 
 
 def ensure_driver():
-    if not os.path.exists(DRIVER):
+    src = os.path.join(VERIF, "engine", "mirfacts", "src", "main.rs")
+    if not os.path.exists(DRIVER) or os.path.getmtime(src) > os.path.getmtime(DRIVER):
         subprocess.check_call(
             ["cargo", "build", "--release", "--offline"],
             cwd=os.path.join(VERIF, "engine", "mirfacts"),
@@ -508,6 +509,16 @@ class Body:
                 refs = k.get("promoted_refs") or []
                 if len(refs) == 1:
                     return ("constref", refs[0])
+                # `&0usize`, `&SOME_SCALAR + ..`: a promoted temporary holding one literal is a reference to that literal
+                raws = self.facts.bodies.get(k.get("def")) or []
+                proms = (raws[0].get("promoted") or []) if len(raws) == 1 else []
+                if not refs and k["promoted"] < len(proms) and depth < 30:
+                    pm = proms[k["promoted"]]
+                    sts = [st for blk in pm["blocks"] for st in blk["stmts"] if st["s"] == "assign"]
+                    calls = [blk for blk in pm["blocks"] if blk["term"]["t"] == "call"]
+                    if len(sts) == 2 and not calls and sts[0]["rv"]["r"] == "use" and "k" in sts[0]["rv"]["o"] and not sts[0]["lhs"]["p"] and \
+                            sts[1]["rv"]["r"] == "ref" and sts[1]["rv"]["p"] == {"l": sts[0]["lhs"]["l"], "p": []} and sts[1]["lhs"] == {"l": 0, "p": []}:
+                        return ("ref", self.term_of_operand(sts[0]["rv"]["o"], depth + 1, at))
                 return ("promoted", k["def"], k["promoted"], tuple(k.get("promoted_dbg", [])))
             if k.get("v") is not None:
                 v = conv_int(k["v"])
@@ -613,6 +624,42 @@ class Body:
             return ("var", l, self.local_name(l))
         return ("var", l, self.local_name(l))
 
+    def root_defs(self, l, limit=16):
+        """Root assignments (block, rvalue) of a local, following whole-local copies; None if some definition is a call result,
+        a parameter or a partial store."""
+        out, todo, seen = [], [l], set()
+        while todo:
+            l0 = todo.pop()
+            if l0 in seen:
+                continue
+            seen.add(l0)
+            if len(seen) > limit or 1 <= l0 <= self.nargs:
+                return None
+            ds = self.defs().get(l0, [])
+            if not ds:
+                return None
+            for (bi, si, kind, rv) in ds:
+                if kind != "assign":
+                    return None
+                q = (rv["o"].get("m") or rv["o"].get("c")) if rv["r"] == "use" else None
+                if q is not None and not q["p"]:
+                    todo.append(q["l"])
+                else:
+                    out.append((bi, rv))        # (a read of a field or element is a root of unknown value)
+        return out
+
+    def stored_values(self, bi, st):
+        """The (block, rvalue) pairs a store statement can write: the statement's own rvalue, or -- for `*p = move tmp` with tmp
+        assigned in several arms (`*p = if c { a } else { b }`) -- the root assignments of tmp."""
+        rv = st["rv"]
+        if rv["r"] == "use":
+            q = rv["o"].get("m") or rv["o"].get("c")
+            if q is not None and not q["p"]:
+                roots = self.root_defs(q["l"])
+                if roots:
+                    return roots
+        return [(bi, rv)]
+
     def term_of_call(self, t, depth=0, at=None):
         c = t["callee"]
         name = c.get("res", {}).get("def") if c.get("res", {}).get("is_item") else None
@@ -663,6 +710,9 @@ def strip_ref(t):
     return ("deref", t)
 
 
+CHECKED_OPS = {"checked_sub": "Sub", "checked_add": "Add", "checked_mul": "Mul"}
+
+
 def proj_field(base, e):
     name = str(e.get("name", e["f"]))
     # field of a checked-arithmetic pair
@@ -674,6 +724,18 @@ def proj_field(base, e):
         return base[1][e["f"]]
     if isinstance(base, tuple) and base[0] == "adt" and name in base[3]:
         return base[4][base[3].index(name)]
+    # the payload of `a.checked_sub(b)` is a - b (likewise add / mul): where the Some arm is taken the two spellings agree
+    if isinstance(base, tuple) and base[0] == "downcast" and base[2] == "Some" and name == "0":
+        c = base[1]
+        if isinstance(c, tuple) and c and c[0] == "call" and c[1].startswith("core::num::<impl ") and len(c[2]) == 2 and \
+                c[1].split("::")[-1] in CHECKED_OPS:
+            return ("bin", CHECKED_OPS[c[1].split("::")[-1]], c[2][0], c[2][1])
+    # the payload of `slice.get(i)` is a reference to slice[i] (the bounds-checked spelling of the same read)
+    if isinstance(base, tuple) and base[0] == "downcast" and base[2] == "Some" and name == "0":
+        c = base[1]
+        if isinstance(c, tuple) and c and c[0] == "call" and c[1] == "core::slice::<impl [T]>::get" and len(c[2]) == 2 and \
+                len(c[3]) == 2 and c[3][1] == "usize":
+            return ("ref", ("index", strip_ref(c[2][0]), c[2][1]))
     return ("field", base, name)
 
 
